@@ -31,6 +31,12 @@ Next == /\ l <= Len(Trace)
         /\ LET e == Trace[l] IN
            CASE e.ev = "doc" -> JudgeDoc(e)
              [] e.ev = "include" -> JudgeInclude(e)
+             \* the document a walk of Include calls leaves, marshaled: no pair twice in what a client receives; a
+             \* refusal is an outcome only for primary data of no kind the library knows (a Resources value)
+             [] e.ev = "included-doc" ->
+                  IF e.ret = "ok" /\ ~e.dup THEN TRUE
+                  ELSE IF e.ret = "err" /\ e.foreign THEN TRUE
+                  ELSE Rej("C03", IF e.ret = "panic" THEN "marshal-panicked" ELSE "NONE")
              [] e.ev = "dupname" ->
                   IF e.ret # "ok" THEN Rej("C03", "marshal-panicked")
                   ELSE /\ IF DupOK(e) THEN TRUE ELSE Rej("C04", "NONE")
